@@ -616,7 +616,7 @@ def opt_get(script, key, default=None):
 # ------------------------------------------------------------------------------------------------
 # scripts
 
-def gen_assertions(rnd, L, sig, tg, depth, n_assert, unsat_lean=0.5):
+def gen_assertions(rnd, L, sig, tg, depth, n_assert, planted_p=0.55):
     """Draw an atom pool and build assertions over it (plus planted shapes)."""
     pool = []
     npool = rnd.randint(3, 10)
@@ -627,9 +627,9 @@ def gen_assertions(rnd, L, sig, tg, depth, n_assert, unsat_lean=0.5):
         else:
             pool.append(tg.atom(rnd.randint(0, max(0, depth - 2))))
     out = []
-    if rnd.random() < 0.55:
+    if rnd.random() < planted_p:
         out += planted(rnd, L, sig, tg)
-        if rnd.random() < 0.3:
+        while rnd.random() < planted_p * 0.6 and len(out) < 14:
             out += planted(rnd, L, sig, tg)
     while len(out) < n_assert:
         r = rnd.random()
@@ -671,20 +671,22 @@ def macro_cmds(sig):
 
 def gen_script(rnd, tier="quick", logic_keys=None, tracking=None, engines=True, incremental=None,
                history=True, queries=True, named=0.0, min_checks=1, big=True, allow_nonincr=True, depth=None,
-               max_hist=None):
+               max_hist=None, planted_p=0.55, hist_p=0.6, hist_w=(0.42, 0.18, 0.15)):
     """General-purpose script of the C01 input space."""
     lk = rnd.choice(logic_keys or ALL_LOGIC_KEYS)
     L = LOGICS[lk]
     sig = gen_sig(rnd, L)
     tg = TermGen(rnd, L, sig, big=big)
     opts, eng, tracking, incr = gen_options(rnd, L, tracking, engines, incremental, allow_nonincr)
+    if "interpolants" in tracking or (("cores" in tracking) and named == 0.0):
+        named = 1.0 if "interpolants" in tracking else 0.7
     if depth is None:
         depth = rnd.randint(1, 3 if tier == "quick" else 4)
     if rnd.random() < 0.4:
         gen_macros(rnd, L, sig, tg)
     cmds = macro_cmds(sig)
     nas = rnd.randint(2, 8 if tier == "quick" else 12)
-    asserts, pool = gen_assertions(rnd, L, sig, tg, depth, nas)
+    asserts, pool = gen_assertions(rnd, L, sig, tg, depth, nas, planted_p)
     namec = [0]
 
     def mk_assert(t):
@@ -695,7 +697,7 @@ def gen_script(rnd, tier="quick", logic_keys=None, tracking=None, engines=True, 
 
     hist = []
     level = 0
-    use_hist = history and incr and rnd.random() < 0.6
+    use_hist = history and incr and rnd.random() < hist_p
     if not use_hist:
         if not incr and rnd.random() < 0.35 and len(asserts) > 2:
             # non-incremental but several check-sats separated by further asserts
@@ -711,7 +713,7 @@ def gen_script(rnd, tier="quick", logic_keys=None, tracking=None, engines=True, 
         steps = rnd.randint(4, maxh)
         for _ in range(steps):
             r = rnd.random()
-            if r < 0.42:
+            if r < hist_w[0]:
                 if popped and rnd.random() < 0.25:
                     t = rnd.choice(popped)
                 elif pending:
@@ -720,12 +722,12 @@ def gen_script(rnd, tier="quick", logic_keys=None, tracking=None, engines=True, 
                     t = tg.boolean(rnd.randint(1, depth), pool)
                 hist.append(mk_assert(t))
                 live[-1].append(t)
-            elif r < 0.6:
+            elif r < hist_w[0] + hist_w[1]:
                 n = 1 if rnd.random() < 0.85 else 2
                 hist.append(["push", n])
                 for _ in range(n):
                     live.append([])
-            elif r < 0.75 and len(live) > 1:
+            elif r < hist_w[0] + hist_w[1] + hist_w[2] and len(live) > 1:
                 n = 1 if rnd.random() < 0.8 or len(live) < 3 else 2
                 hist.append(["pop", n])
                 for _ in range(n):
@@ -739,7 +741,50 @@ def gen_script(rnd, tier="quick", logic_keys=None, tracking=None, engines=True, 
     if nchk < min_checks:
         cmds.append(["check-sat"])
     script = {"options": opts, "logic": L["name"], "lk": lk, "decls": list(sig.decls), "cmds": cmds}
+    if queries:
+        add_queries(rnd, script, L, tg, tracking)
     return script, sig, tg
+
+
+def add_queries(rnd, script, L, tg, tracking, p=0.5):
+    """Insert get-* queries after check-sats, matching the tracking options (a query in the wrong state only yields an
+    error response, which is legal)."""
+    out = []
+    for idx, c, active in list(stack_walk(script)):
+        out.append(c)
+        if c[0] != "check-sat" or rnd.random() > p:
+            continue
+        kinds = []
+        if "models" in tracking and L["models"]:
+            kinds += ["get-model", "get-value", "get-value"]
+        if "assignments" in tracking:
+            kinds += ["get-assignment"]
+        if "cores" in tracking:
+            kinds += ["get-unsat-core"]
+        if "proofs" in tracking:
+            kinds += ["get-proof"]
+        names = [n for _, n in active if n]
+        if "interpolants" in tracking and len(names) >= 2:
+            kinds += ["get-interpolants"]
+        if not kinds:
+            continue
+        for _ in range(rnd.randint(1, 2)):
+            k = rnd.choice(kinds)
+            if k == "get-value":
+                sorts = ["Bool"] + [s for s in tg.nonbool_sorts() if not s.startswith("(Array")]
+                terms = [tg.term(rnd.choice(sorts), rnd.randint(0, 2)) for _ in range(rnd.randint(1, 4))]
+                out.append(["get-value", terms])
+            elif k == "get-interpolants":
+                ns = list(names)
+                rnd.shuffle(ns)
+                cut = rnd.randint(1, len(ns) - 1)
+
+                def grp(g):
+                    return g[0] if len(g) == 1 else "(and %s)" % " ".join(g)
+                out.append(["get-interpolants", [grp(ns[:cut]), grp(ns[cut:])]])
+            else:
+                out.append([k])
+    script["cmds"] = out
 
 
 def render(script, exit_cmd=False):
